@@ -277,7 +277,7 @@ for f in formats:
 import glob as _glob
 base_path = os.path.join(os.path.dirname(os.path.abspath(__file__)), '..', 'bindings', 'baseline_api.txt')
 baseline = set(l.strip() for l in open(base_path) if l.strip() and not l.startswith('#')) if os.path.exists(base_path) else None
-extra_rows, extra_code, extra_hdrs, new_uncallable = [], [], [], []
+extra_rows, extra_code, extra_hdrs, new_uncallable, extrap_rows = [], [], [], [], []
 INT_TYPES = set(TYPE_BITS) | {'size_t', 'long', 'short'}
 if baseline is not None:
     for hp in sorted(_glob.glob(os.path.join(inc, '**', '*.h'), recursive=True)):
@@ -286,7 +286,7 @@ if baseline is not None:
         code = re.sub(r'//[^\n]*', ' ', code)
         for m in re.finditer(r'^\s*([A-Za-z_][\w\s]*?[\w\*])\s*\**\s*\b((?:Avtp|avtp)_\w+)\s*\(([^;{}()]*?)\)\s*(?:[A-Za-z_]\w*\s*(?:\(\([^;{}]*?\)\))?\s*)*[;{]', code, re.M | re.S):
             ret, name, args = m.group(1).strip(), m.group(2), ' '.join(m.group(3).split())
-            if name in baseline or any(name == r[0] for r in extra_rows) or name in new_uncallable:
+            if name in baseline or any(name == r[0] for r in extra_rows) or any(name == r[0] for r in extrap_rows) or name in new_uncallable:
                 continue
             params = [a.strip() for a in args.split(',')] if args.strip() and args.strip() != 'void' else []
             ptr = any('*' in a or '[' in a for a in params)
@@ -307,7 +307,27 @@ if baseline is not None:
                 if rel not in extra_hdrs:
                     extra_hdrs.append(rel)
             else:
-                new_uncallable.append(name)
+                # one pointer parameter, the first, of a PDU type of a known format; the rest integers
+                m0 = re.match(r'^(const\s+)?Avtp_(\w+)_t\s*(const\s*)?\*\s*(const\s+)?\w*$', params[0]) if params else None
+                rest = params[1:]
+                rest_ok = all('*' not in a and '[' not in a and ((a.replace('const', ' ').split() or ['int'])[0] in INT_TYPES or a.split()[0].endswith('_t')) for a in rest)
+                if m0 and m0.group(2) in [f['name'] for f in formats] and rest_ok and len(rest) <= 3 and 'struct' not in args:
+                    k = len(extrap_rows)
+                    call = '%s(%s)' % (name, ', '.join(['(%sAvtp_%s_t *)p' % ('const ' if m0.group(1) else '', m0.group(2))] +
+                                                      ['(%s)%s' % (a.rsplit(' ', 1)[0] if ' ' in a else a, 'bcd'[i]) for i, a in enumerate(rest)]))
+                    if retptr and 'char' in ret:
+                        body = ('const char *r_ = (const char *)%s; uint64_t h_ = 1469598103934665603ULL; int i_; if (!r_) return 0; '
+                                'for (i_ = 0; i_ < 256 && r_[i_]; i_++) h_ = (h_ ^ (unsigned char)r_[i_]) * 1099511628211ULL; return h_;' % call)
+                    elif retptr:
+                        body = 'return (uint64_t)(%s != NULL);' % call
+                    else:
+                        body = ('%s; return 0;' % call) if ret.split()[-1] == 'void' else 'return (uint64_t)%s;' % call
+                    extra_code.append('static uint64_t ep_%d(void *p, uint64_t b, uint64_t c, uint64_t d) { (void)b; (void)c; (void)d; %s }' % (k, body))
+                    extrap_rows.append((name, 'ep_%d' % k, len(params), m0.group(2), 1 if m0.group(1) else 0))
+                    if rel not in extra_hdrs:
+                        extra_hdrs.append(rel)
+                else:
+                    new_uncallable.append(name)
 for n in new_uncallable:
     warnings.append('new API: %s takes pointers or structures: no call is generated for it (NOT EXERCISED)' % n)
 ec = ['/* generated by tools/gen_bindings.py: pointer-free public functions that are not part of the baseline API */', '#include <stdint.h>', '#include <stddef.h>']
@@ -318,6 +338,10 @@ ec.append('const BindExtra bind_extras[] = {')
 ec += ['  {"%s", %s, %d},' % r for r in extra_rows]
 ec.append('  {NULL, NULL, 0}\n};')
 ec.append('const unsigned bind_nextras = %d;' % len(extra_rows))
+ec.append('const BindExtraP bind_extras_p[] = {')
+ec += ['  {"%s", %s, %d, "%s", %d},' % r for r in extrap_rows]
+ec.append('  {NULL, NULL, 0, NULL, 0}\n};')
+ec.append('const unsigned bind_nextras_p = %d;' % len(extrap_rows))
 ec.append('const char *const bind_new_uncallable[] = {%s NULL};' % ''.join('"%s", ' % n for n in new_uncallable))
 path = os.path.join(out, 'bind_extra.c')
 new = '\n'.join(ec) + '\n'
